@@ -524,3 +524,14 @@ Definition tailrec (c : list instr) : list instr := tr_loop c c 0 [] [].
 Definition compile (q : query) : option (list instr) := option_map (fun c => peephole (tailrec c)) (compile_raw q).
 (* the same with optimizeTailRec done by the compiler *)
 Definition compile_tco (q : query) : option (list instr) := option_map peephole (compile_raw_g true q).
+
+(* the side conditions of the peephole theorem (Peep.v), as an executable test: no opjumpifnot targets the next
+   instruction; the targets of oppushpc / opcall pc / opcallrec are opscope instructions *)
+Fixpoint checki (f : nat -> instr -> bool) (l : list instr) (i : nat) : bool :=
+  match l with [] => true | x :: r => f i x && checki f r (S i) end.
+Definition is_scope (c : list instr) (p : nat) : bool := match nth_error c p with Some (Iscope _ _ _) => true | _ => false end.
+Definition side_okb (c : list instr) : bool :=
+  checki (fun p x => match x with
+                     | Ijumpifnot j => negb (Nat.eqb j (S p))
+                     | Ipushpc t | Icallf t | Icallrec t => is_scope c t
+                     | _ => true end) c 0.
